@@ -501,7 +501,11 @@ func RunC06(t *testing.T, spec kernel.Spec) *kernel.Outcome {
 		for _, f := range world.AlgFamilies {
 			all = append(all, string(f.Alg))
 		}
-		w, err := world.NewStd(o, tape, world.StdOptions{Router: spec.Params["router"], AllGrants: true, Options: []op.Option{
+		tenants := 1
+		if tc := tape.Sub("cfg-tenants"); tc.Bool(1, 3) {
+			tenants = 2 + tc.Int(2) // one provider, several issuers: every token names the issuer of its own request
+		}
+		w, err := world.NewStd(o, tape, world.StdOptions{Router: spec.Params["router"], AllGrants: true, Tenants: tenants, Options: []op.Option{
 			op.WithAccessTokenVerifierOpts(op.WithSupportedAccessTokenSigningAlgorithms(all...)), op.WithIDTokenHintVerifierOpts(op.WithSupportedIDTokenHintSigningAlgorithms(all...))}})
 		if err != nil {
 			o.Infra = "world: " + err.Error()
@@ -536,6 +540,10 @@ func RunC06(t *testing.T, spec kernel.Spec) *kernel.Outcome {
 				defer func() { w.Store.Inject = nil }()
 			}
 			c.midKey = nil
+			if len(w.Issuers) > 1 {
+				w.UseIssuer(ch.Int(len(w.Issuers)))
+				o.Probe("multi-tenant-steps")
+			}
 			if i > 0 && ch.Bool(1, 5) {
 				// the storage rotates its signing key while this step's requests are being served: right before the k-th
 				// storage call a new key (often of another algorithm family) becomes current, the old one stays published
